@@ -1,3 +1,203 @@
 import PysphVerif.Driver.Common
-/-! Line-protocol driver for C06 (stub: not built yet). -/
-def main : IO Unit := PysphVerif.Driver.loopPure (fun _ => "bad-op")
+import PysphVerif.Model.PArray
+/-!
+Line protocol for C06 (ParticleArray state machine).  State: numbered slots
+holding particle arrays.  Every operation answers `ok <dump>` of the affected
+slot or `error` (the Python code raises; state unchanged).
+
+dump := `name=<s> nreal=<n> out=<csv|_> S=<k=v,..|_> D=<k=v,..|_> P <name>:<ctype>:<csv|_> … K <name>:<csv|_> …`
+(S/D are the raw stride / default dicts, P in dict order.)
+-/
+namespace PysphVerif.Driver.C06
+open PysphVerif.Wire PysphVerif.PArray
+
+def showInts (l : List Int) : String := showList toString l
+def showStrs (l : List String) : String := showList id l
+
+def dump (pa : PA) : String :=
+  let s := showList (fun (p : String × Nat) => s!"{p.1}={p.2}") pa.stride
+  let d := showList (fun (p : String × Int) => s!"{p.1}={p.2}") pa.defaults
+  let ps := pa.props.map (fun c => s!"P {c.name}:{c.ctype.replace " " "~"}:{showInts c.data}")
+  let ks := pa.consts.map (fun c => s!"K {c.1}:{showInts c.2}")
+  " ".intercalate ([s!"name={pa.name}", s!"nreal={pa.nReal}", s!"out={showStrs pa.outputs}",
+    s!"S={s}", s!"D={d}"] ++ ps ++ ks)
+
+def parseInts (s : String) : Option (List Int) := parseList? parseInt? s
+def parseNats (s : String) : Option (List Nat) := parseList? parseNat? s
+def parseStrs (s : String) : Option (List String) := parseList? some s
+
+def parseKVNat (s : String) : Option (List (String × Nat)) :=
+  parseList? (fun t => match t.splitOn "=" with
+    | [k, v] => (parseNat? v).map (fun n => (k, n))
+    | _ => none) s
+def parseKVInt (s : String) : Option (List (String × Int)) :=
+  parseList? (fun t => match t.splitOn "=" with
+    | [k, v] => (parseInt? v).map (fun n => (k, n))
+    | _ => none) s
+
+/-- items following a marker token (`P`, `K`, `G`) -/
+def marked (toks : List String) (m : String) : List String :=
+  let rec go : List String → List String
+    | a :: b :: rest => if a = m then b :: go rest else go (b :: rest)
+    | _ => []
+  go toks
+
+def parseCol (t : String) : Option Col :=
+  match t.splitOn ":" with
+  | [n, ct, d] => (parseInts d).map (fun dd => ⟨n, ct.replace "~" " ", dd⟩)
+  | _ => none
+
+def parseNamed (t : String) : Option (String × List Int) :=
+  match t.splitOn ":" with
+  | [n, d] => (parseInts d).map (fun dd => (n, dd))
+  | _ => none
+
+def parsePA (toks : List String) : Option PA := do
+  let kv := kvs (toks.filter (fun t => !(t.contains ':')))
+  let name := (lookup kv "name").getD ""
+  let nreal ← (lookup kv "nreal") >>= parseNat?
+  let out ← (lookup kv "out") >>= parseStrs
+  -- S= and D= contain '=' inside their values: fetch them by prefix
+  let sTok := (toks.find? (fun t => t.startsWith "S=")).map (fun t => (t.drop 2).toString)
+  let dTok := (toks.find? (fun t => t.startsWith "D=")).map (fun t => (t.drop 2).toString)
+  let s ← sTok >>= parseKVNat
+  let d ← dTok >>= parseKVInt
+  let ps ← (marked toks "P").mapM parseCol
+  let ks ← (marked toks "K").mapM parseNamed
+  pure { name := name, props := ps, stride := s, defaults := d, consts := ks,
+         nReal := nreal, outputs := out }
+
+abbrev St := List (Nat × PA)
+
+def getSlot (st : St) (k : Nat) : Option PA := (st.find? (·.1 == k)).map (·.2)
+def putSlot (st : St) (k : Nat) (pa : PA) : St :=
+  (k, pa) :: st.filter (fun p => !(p.1 == k))
+
+def optStrs (s : String) : Option (Option (List String)) :=
+  if s = "-" then some none else (parseStrs s).map some
+
+def ans (st : St) (k : Nat) (r : Option PA) : St × String :=
+  match r with
+  | some pa => (putSlot st k pa, "ok " ++ dump pa)
+  | none => (st, "error")
+
+def step (st : St) (line : String) : St × String :=
+  let toks := tokens line
+  match toks with
+  | [] => (st, "bad-op")
+  | cmd :: rest =>
+    -- plain key=value tokens (exclude dict-valued S= / D= and marked items)
+    let kv := kvs (rest.filter (fun t => !(t.startsWith "S=") && !(t.startsWith "D=")))
+    let natOf (k : String) : Option Nat := (lookup kv k) >>= parseNat?
+    let intOf (k : String) : Option Int := (lookup kv k) >>= parseInt?
+    let boolOf (k : String) : Option Bool := (natOf k).map (· != 0)
+    let bad : St × String := (st, "bad-op")
+    match natOf "s" with
+    | none => bad
+    | some s =>
+      if cmd = "new" then
+        ans st s (some (PA.empty ((lookup kv "name").getD "")))
+      else if cmd = "load" then
+        match parsePA rest with
+        | some pa => ans st s (some pa)
+        | none => bad
+      else
+      match getSlot st s with
+      | none => bad
+      | some pa =>
+        if cmd = "dump" then (st, "ok " ++ dump pa)
+        else if cmd = "add_particles" then
+          match boolOf "align", (marked rest "G").mapM parseNamed with
+          | some al, some given => ans st s (pa.addParticles al given)
+          | _, _ => bad
+        else if cmd = "remove_particles" then
+          match boolOf "align", (lookup kv "idx") >>= parseNats with
+          | some al, some idx => ans st s (pa.removeParticles idx al)
+          | _, _ => bad
+        else if cmd = "remove_tagged" then
+          match boolOf "align", intOf "tag" with
+          | some al, some t => ans st s (pa.removeTagged t al)
+          | _, _ => bad
+        else if cmd = "extend" then
+          match natOf "k" with
+          | some k => ans st s (some (pa.extend k))
+          | none => bad
+        else if cmd = "resize" then
+          match natOf "m" with
+          | some m => ans st s (some (pa.resize m))
+          | none => bad
+        else if cmd = "align" then ans st s (some pa.align)
+        else if cmd = "set_tag" then
+          match intOf "tag", (lookup kv "idx") >>= parseNats with
+          | some t, some idx => ans st s (some (pa.setTag t idx))
+          | _, _ => bad
+        else if cmd = "add_property" then
+          match lookup kv "name", lookup kv "type", lookup kv "default", lookup kv "data",
+                natOf "stride" with
+          | some nm, some ty, some df, some da, some sd =>
+            let dflt : Option (Option Int) := if df = "-" then some none else (parseInt? df).map some
+            let data : Option (Option (List Int)) := if da = "-" then some none else (parseInts da).map some
+            match dflt, data with
+            | some dflt, some data => ans st s (pa.addProperty nm (ty.replace "~" " ") dflt data sd)
+            | _, _ => bad
+          | _, _, _, _, _ => bad
+        else if cmd = "remove_property" then
+          match lookup kv "name" with
+          | some nm => ans st s (some (pa.removeProperty nm))
+          | none => bad
+        else if cmd = "add_constant" then
+          match lookup kv "name", (lookup kv "data") >>= parseInts with
+          | some nm, some d => ans st s (pa.addConstant nm d)
+          | _, _ => bad
+        else if cmd = "set" then
+          match lookup kv "name", (lookup kv "data") >>= parseInts with
+          | some nm, some d => ans st s (pa.setProp nm d)
+          | _, _ => bad
+        else if cmd = "set_outputs" then
+          match (lookup kv "props") >>= parseStrs with
+          | some ps => ans st s (pa.setOutputs ps)
+          | none => bad
+        else if cmd = "add_outputs" then
+          match (lookup kv "props") >>= parseStrs with
+          | some ps => ans st s (pa.addOutputs ps)
+          | none => bad
+        else if cmd = "empty_clone" then
+          match natOf "to", (lookup kv "props") >>= optStrs with
+          | some t, some ps => ans st t (pa.emptyClone ps)
+          | _, _ => bad
+        else if cmd = "extract" then
+          match natOf "to", (lookup kv "props") >>= optStrs, boolOf "align",
+                (lookup kv "idx") >>= parseNats with
+          | some t, some ps, some al, some idx => ans st t (pa.extract idx al ps)
+          | _, _, _, _ => bad
+        else if cmd = "extract_into" then
+          match natOf "dest", (lookup kv "props") >>= optStrs, boolOf "align",
+                (lookup kv "idx") >>= parseNats with
+          | some t, some ps, some al, some idx =>
+            match getSlot st t with
+            | some d => ans st t (pa.extractInto idx d al ps)
+            | none => bad
+          | _, _, _, _ => bad
+        else if cmd = "append" then
+          match natOf "src", boolOf "align", boolOf "upd" with
+          | some t, some al, some up =>
+            match getSlot st t with
+            | some src => ans st s (pa.appendParray src al up)
+            | none => bad
+          | _, _, _ => bad
+        else if cmd = "ensure" then
+          match natOf "src", (lookup kv "props") >>= optStrs with
+          | some t, some ps =>
+            match getSlot st t with
+            | some src => ans st s (pa.ensureProperties src ps)
+            | none => bad
+          | _, _ => bad
+        else if cmd = "pickle" then
+          match natOf "to" with
+          | some t => ans st t pa.pickle
+          | none => bad
+        else bad
+
+end PysphVerif.Driver.C06
+
+def main : IO Unit := PysphVerif.Driver.loop PysphVerif.Driver.C06.step []
